@@ -85,6 +85,11 @@ class Mapper(object):
                 o = c.cell_contents
                 if hasattr(o, 'task_ex') and hasattr(o, 'action_ex'):
                     return dict(self.tid(o.task_ex.id) or {'t': None}, k='postRunAction')
+            for c in func.__closure__ or ():
+                o = c.cell_contents
+                # repo patch 22: the operation captures the execution context instead of the action object
+                if isinstance(o, dict) and 'task_execution_id' in o:
+                    return dict(self.tid(o['task_execution_id']) or {'t': None}, k='postRunAction')
             return None
         if name == '_check':
             return {'k': 'postCheck'}
